@@ -32,10 +32,12 @@ ENCODING RULES (each is part of the trusted base of this tie; listed in coq/theo
      loop -> fold_left over `rev X` (SetOrdered.pop takes the LAST element; the emptied set is never read again).
  E4  comparisons of distances: `a < b` -> dltb a b, `a >= b` -> negb (dltb a b), `a > b` -> dltb b a, `a <= b` -> negb (dltb b a)
      (distances are totally ordered: no nan).
- E5  len(x) of a SetOrdered / dict -> List.length; `/`, `+`, `>` on those lengths and self.cutoff_intersection_for_pairs are the
-     rational comparison  num / den > cut  stated as  Qlt-free integer arithmetic is NOT attempted: the quotient is kept as the
-     pair (num, den) and the comparison is the oracle-free primitive `ratio_gt num den cut` (DiffIOGen preamble-free: defined in
-     DD.DiffIO.DiffIOSelect).
+ E5  _diff_iterable_with_deephash: `len(hashes_added)` / `len(hashes_removed)` -> inject_Z (Z.of_nat (length ..)); `len(full_t*_hashtable)` -> the
+     parameter len_full_t*_hashtable : N; int literals, `+`, `/` and self.cutoff_intersection_for_pairs are EXACT rationals (Q: Python's true
+     division and the float cut-off are read without rounding); `a > b` -> negb (Qle_bool a b), `>=`, `<`, `<=` likewise;
+     `self._stats[PASSES_COUNT] < self.max_passes` -> N.ltb; `self._stats[PASSES_COUNT] += 1` rebinds stats_PASSES_COUNT; `and` -> &&;
+     the call of _get_most_in_common_pairs_in_iterables with exactly the arguments (hashes_added, hashes_removed, t1_hashtable,
+     t2_hashtable, parents_ids, _original_type) is the generated definition above with the same oracles.
 ORACLES
  O1  the three statements `_distance = None` / `if pre_calced_distances: _distance = pre_calced_distances.get("{}--{}".format(a, r))` /
      `if _distance is None: _distance = self._get_rough_distance_of_hashed_objs(a, r, <t2_hashtable[a]>, <t1_hashtable[r]>, _original_type)`
@@ -52,6 +54,8 @@ SKIP RULES
      cache_key).copy()`, `if cache_key and self._stats[DISTANCE_CACHE_ENABLED]: self._distance_cache.set(cache_key, value=pairs)`
      are checked for exactly this shape and position (first / last before the return) and not translated (C17's model and
      correspondence are about them).
+ S6  `if not self._stats[MAX_PASS_LIMIT_REACHED]: self._stats[MAX_PASS_LIMIT_REACHED] = True; logger.warning(...)` (the once-only
+     warning) is skipped; the statements between the get_pairs test and the pairs decision are checked not to store to any name the two read.
  S5  the nested `def defaultdict_orderedset(): return defaultdict(SetOrdered)` is checked for exactly this shape.
 """
 import ast
@@ -576,9 +580,10 @@ HEADER = """(* GENERATED by harness/translate/iopairs.py from %s - do not edit.
    Statement-level model of the pairing heuristic of the order-ignoring list diff (DeepDiff.%s and the
    decision of DeepDiff._diff_iterable_with_deephash whether pairs are computed); definitions only.
    Equivalence with the hand model: coq/srctie/DiffIOGenEquiv.v *)
-From Coq Require Import List ZArith Bool.
+From Coq Require Import List ZArith NArith QArith Bool.
 Import ListNotations.
 From DD Require Import DiffIO.MemoPairs.
+Local Open Scope Q_scope.
 
 Section Gen.
 Variables A D : Type.
@@ -588,8 +593,130 @@ Variable deqb : D -> D -> bool.
 """
 
 
+FN2 = "_diff_iterable_with_deephash"
+PAIRS_CALL = "self._get_most_in_common_pairs_in_iterables(hashes_added, hashes_removed, t1_hashtable, t2_hashtable, parents_ids, _original_type)"
+LEN_LISTS = ("hashes_added", "hashes_removed")                      # list A arguments of the generated definition
+LEN_TABLES = ("full_t1_hashtable", "full_t2_hashtable")             # only their lengths occur: parameters len_<name> : N
+
+
+def stores(node):
+    """names / self attributes / self._stats keys a statement may store to (syntactic)"""
+    out = set()
+    for n in ast.walk(node):
+        if isinstance(n, ast.Name) and isinstance(n.ctx, (ast.Store, ast.Del)):
+            out.add(n.id)
+        elif isinstance(n, (ast.Attribute, ast.Subscript)) and isinstance(n.ctx, (ast.Store, ast.Del)):
+            out.add(ast.unparse(n))
+        elif isinstance(n, ast.FunctionDef):
+            out.add(n.name)
+    return out
+
+
+class Dec:
+    """E5: the statements of _diff_iterable_with_deephash that decide whether pairs are computed"""
+
+    def num(self, e):
+        if isinstance(e, ast.BinOp) and isinstance(e.op, (ast.Add, ast.Div)):
+            return "(%s %s %s)" % (self.num(e.left), "+" if isinstance(e.op, ast.Add) else "/", self.num(e.right))
+        if isinstance(e, ast.Call) and isinstance(e.func, ast.Name) and e.func.id == "len" and len(e.args) == 1 and not e.keywords and isinstance(e.args[0], ast.Name):
+            n = e.args[0].id
+            if n in LEN_LISTS:
+                return "(inject_Z (Z.of_nat (List.length v_%s)))" % n
+            if n in LEN_TABLES:
+                return "(inject_Z (Z.of_N len_%s))" % n
+            bad(e, "len of %r" % n)
+        if isinstance(e, ast.Constant) and isinstance(e.value, int) and not isinstance(e.value, bool) and e.value >= 0:
+            return "(inject_Z %d)" % e.value
+        if same(e, "self.cutoff_intersection_for_pairs"):
+            return "self_cutoff_intersection_for_pairs"
+        bad(e, "arithmetic outside the white-list: " + ast.unparse(e)[:80])
+
+    def cond(self, e):
+        if isinstance(e, ast.BoolOp) and isinstance(e.op, ast.And):
+            return "(" + " && ".join(self.cond(x) for x in e.values) + ")"
+        if isinstance(e, ast.UnaryOp) and isinstance(e.op, ast.Not):
+            return "(negb %s)" % self.cond(e.operand)
+        if isinstance(e, ast.Name) and e.id == "get_pairs":
+            return "v_get_pairs"
+        if isinstance(e, ast.Compare) and len(e.ops) == 1:
+            l, r, op = e.left, e.comparators[0], e.ops[0]
+            if same(l, "self._stats[PASSES_COUNT]") and same(r, "self.max_passes") and isinstance(op, (ast.Lt, ast.LtE)):
+                return "(%s stats_PASSES_COUNT self_max_passes)" % ("N.ltb" if isinstance(op, ast.Lt) else "N.leb")
+            if isinstance(op, (ast.Gt, ast.GtE, ast.Lt, ast.LtE)):
+                a, b = self.num(l), self.num(r)
+                return {ast.Gt: "(negb (Qle_bool %s %s))" % (a, b), ast.LtE: "(Qle_bool %s %s)" % (a, b),
+                        ast.Lt: "(negb (Qle_bool %s %s))" % (b, a), ast.GtE: "(Qle_bool %s %s)" % (b, a)}[type(op)]
+        bad(e, "condition outside the white-list: " + ast.unparse(e)[:80])
+
+    def branch(self, stmts, ind):
+        sp = " " * ind
+        out = []
+        for k, s in enumerate(stmts):
+            if same_stmt(s, "self._stats[PASSES_COUNT] += 1"):
+                out.append("%slet stats_PASSES_COUNT := (stats_PASSES_COUNT + 1)%%N in\n" % sp)
+            elif same_stmt(s, "pairs = " + PAIRS_CALL):
+                out.append("%slet v_pairs := g__get_most_in_common_pairs_in_iterables A D aeqb dltb deqb o_loop_detected o_distance "
+                           "self_cutoff_distance_for_pairs v_hashes_added v_hashes_removed in\n" % sp)
+            elif same_stmt(s, "pairs = dict_()"):
+                out.append("%slet v_pairs := (@nil (A * A)) in\n" % sp)
+            elif (isinstance(s, ast.If) and not s.orelse and same(s.test, "not self._stats[MAX_PASS_LIMIT_REACHED]")
+                  and stores(s) <= {"self._stats[MAX_PASS_LIMIT_REACHED]"}
+                  and all(same_stmt(x, "self._stats[MAX_PASS_LIMIT_REACHED] = True") or
+                          (isinstance(x, ast.Expr) and isinstance(x.value, ast.Call) and ast.unparse(x.value.func).startswith("logger.")) for x in s.body)):
+                continue        # S6: the once-only warning that max_passes is reached
+            elif isinstance(s, ast.If) and k == len(stmts) - 1:
+                return "".join(out) + self.ite(s, ind)
+            else:
+                bad(s, "statement outside the white-list in the pairs decision")
+        if not any("v_pairs" in x for x in out):
+            bad(stmts[0] if stmts else None, "a branch of the pairs decision does not bind `pairs`")
+        return "".join(out) + sp + "(v_pairs, stats_PASSES_COUNT)"
+
+    def ite(self, s, ind):
+        sp = " " * ind
+        if not s.orelse:
+            bad(s, "pairs decision without else")
+        return "%sif %s then\n%s\n%selse\n%s" % (sp, self.cond(s.test), self.branch(s.body, ind + 2), sp, self.branch(s.orelse, ind + 2))
+
+
 def tr_decision(tree):
-    return ""
+    fn = find_method(tree, FN2)
+    a = fn.args
+    if [x.arg for x in a.args] != ["self", "level", "parents_ids", "_original_type", "local_tree"] or a.vararg or a.kwarg or a.kwonlyargs or a.posonlyargs \
+            or len(a.defaults) != 2 or not all(isinstance(d, ast.Constant) and d.value is None for d in a.defaults):
+        bad(fn, "%s: signature other than (self, level, parents_ids, _original_type=None, local_tree=None)" % FN2)
+    body = fn.body
+    gp = [i for i, s in enumerate(body) if "get_pairs" in stores(s)]
+    dec = [i for i, s in enumerate(body) if "pairs" in stores(s) and not isinstance(s, ast.FunctionDef)]
+    if len(gp) != 1 or len(dec) != 1 or not gp[0] < dec[0]:
+        bad(fn, "expected exactly one top-level statement that binds get_pairs, followed by exactly one that binds pairs")
+    sg, sd = body[gp[0]], body[dec[0]]
+    for s in body[gp[0] + 1:dec[0]]:
+        st = stores(s)
+        if st & {"hashes_added", "hashes_removed", "get_pairs", "pairs"} or any("_stats" in x or "max_passes" in x or "cutoff" in x for x in st):
+            bad(s, "a statement between the get_pairs test and the pairs decision stores to a name they read")
+    for s in body[:gp[0]]:
+        if any("_stats" in x or "max_passes" in x or "cutoff" in x for x in stores(s)):
+            bad(s, "a statement before the get_pairs test stores to the pass counter / a cut-off")
+    for n in LEN_LISTS + LEN_TABLES:
+        if sum(1 for s in body[:gp[0]] if n in stores(s)) != 1 or any(n in stores(s) for s in body[gp[0]:]):
+            bad(fn, "%r is not bound exactly once, before the get_pairs test" % n)
+    d = Dec()
+    if not (isinstance(sg, ast.If) and len(sg.body) == 1 and len(sg.orelse) == 1
+            and all(isinstance(x, ast.Assign) and len(x.targets) == 1 and same(x.targets[0], "get_pairs") and isinstance(x.value, ast.Constant)
+                    and isinstance(x.value.value, bool) for x in (sg.body[0], sg.orelse[0]))):
+        bad(sg, "get_pairs is not bound by `if <test>: get_pairs = <bool> else: get_pairs = <bool>`")
+    cb = lambda x: "true" if x.value.value else "false"      # noqa
+    gp_text = "  let v_get_pairs := if %s then %s else %s in\n" % (d.cond(sg.test), cb(sg.body[0]), cb(sg.orelse[0]))
+    if not isinstance(sd, ast.If):
+        bad(sd, "pairs is not bound by an if / elif / else statement")
+    text = gp_text + d.ite(sd, 2)
+    return ("\n(* %s:%d, %d DeepDiff.%s: the statements that decide whether pairs are computed (E5; skip rule S6);\n"
+            "   result: the pairs dictionary of the level and self._stats[PASSES_COUNT] afterwards *)\n"
+            "Definition g__diff_iterable_with_deephash_pairs (A D : Type) (aeqb : A -> A -> bool) (dltb deqb : D -> D -> bool)\n"
+            "    (o_loop_detected : A -> bool) (o_distance : A -> A -> D) (self_cutoff_distance_for_pairs : D)\n"
+            "    (self_cutoff_intersection_for_pairs : Q) (self_max_passes stats_PASSES_COUNT len_full_t1_hashtable len_full_t2_hashtable : N)\n"
+            "    (v_hashes_added v_hashes_removed : list A) : list (A * A) * N :=\n%s.\n" % (DIFF, sg.lineno, sd.lineno, FN2, text))
 
 
 def translate(repo):
